@@ -343,6 +343,11 @@ fn stream_play(bytes: &Arc<[u8]>, rate: u32, start: usize, segs: &[Seg]) -> Stre
 	stream_play_lp(bytes, rate, start, None, segs)
 }
 
+thread_local! {
+	/// slice (in frames) applied to the streaming data by stream_play_lp
+	static SLICE: std::cell::Cell<Option<(usize, usize)>> = const { std::cell::Cell::new(None) };
+}
+
 /// the same with an optional loop region (in frames)
 fn stream_play_lp(bytes: &Arc<[u8]>, rate: u32, start: usize, lp: Option<(usize, usize)>, segs: &[Seg]) -> StreamObs {
 	let mut obs = StreamObs::default();
@@ -354,6 +359,10 @@ fn stream_play_lp(bytes: &Arc<[u8]>, rate: u32, start: usize, lp: Option<(usize,
 		}
 	};
 	obs.num_frames = data.num_frames();
+	let data = match SLICE.with(|s| s.get()) {
+		Some((a, b)) => data.slice(kira::sound::Region { start: PlaybackPosition::Samples(a), end: kira::sound::EndPosition::Custom(PlaybackPosition::Samples(b)) }),
+		None => data,
+	};
 	let data = match lp {
 		Some((a, b)) => data.loop_region(kira::sound::Region { start: PlaybackPosition::Samples(a), end: kira::sound::EndPosition::Custom(PlaybackPosition::Samples(b)) }),
 		None => data,
@@ -864,6 +873,77 @@ fn long_stream_case(fmt: Fmt, ch: u16, ctx: &mut Ctx) {
 	ctx.outcome(frames_hash(&all));
 }
 
+/// a slice of the file, streamed: the frames of the slice, from every start position of a small lattice and after a seek
+fn slice_case(fmt: Fmt, ch: u16, ctx: &mut Ctx) {
+	pacer::set_mode(pacer::Mode::Pacer);
+	let (n, rate) = (4000usize, 8000u32);
+	let spec = Spec { fmt, ch, n, rate, layout: Layout::Plain };
+	let (file, _, vals) = encode(&spec);
+	let bytes: Arc<[u8]> = file.into();
+	let reference = to_frames(&vals, ch as usize);
+	// slice starts: inside the first packet (1152 frames), on its border, in a later packet
+	for (a, b) in [(100usize, 3900usize), (1, 1500), (1152, 3000), (2500, 4000), (0, 700)] {
+		let len = b - a;
+		for start in [0usize, 1, 37, len / 2] {
+			for seek in [None, Some(5usize), Some(len / 3), Some(len - 40)] {
+				let k = 64usize;
+				let mut segs = vec![Seg { seek_by: None, seek: None, steps: k, render: k }];
+				let mut expect: Vec<(usize, usize)> = vec![(start, k)];
+				if let Some(p) = seek {
+					let kk = k.min(len - p);
+					let ends = kk == len - p;
+					segs.push(Seg { seek_by: None, seek: Some(p), steps: kk + ends as usize, render: kk });
+					expect.push((p, kk));
+				}
+				ctx.evals += 1;
+				ctx.count("runs: sliced streaming scenarios", 1);
+				let detail = format!("{}: slice {}..{} (frames), streamed from start position {} (relative to the slice), {} frames, then seek_to {:?} (relative) and {} frames; playback rate 1, dt=1/{}", spec.desc(), a, b, start, k, seek, k, rate);
+				SLICE.with(|s| s.set(Some((a, b))));
+				let r = catch(|| stream_play(&bytes, rate, start, &segs));
+				SLICE.with(|s| s.set(None));
+				let obs = match r {
+					Ok(o) => o,
+					Err(p) => {
+						ctx.fail(format!("panic: {} :: streaming a slice of a valid wav file", p), detail);
+						continue;
+					}
+				};
+				if obs.hung {
+					ctx.fail("hang: the streaming decoder thread never finishes a decode-loop iteration :: a slice of a valid wav file", detail);
+					return;
+				}
+				if let Some(e) = obs.open_err.as_ref().or(obs.start_err.as_ref()) {
+					ctx.fail(format!("stream: slice of a valid wav file refused: {}", e), detail);
+					continue;
+				}
+				if !obs.errors.is_empty() {
+					ctx.fail(format!("stream: decode error reported for a valid file: {} :: sliced wav", obs.errors[0]), detail);
+					continue;
+				}
+				let mut bad = None;
+				'pieces: for (i, out) in obs.out.iter().enumerate() {
+					for (j, f) in out.iter().enumerate() {
+						let want = if j < expect[i].1 { reference[a + expect[i].0 + j] } else { Frame::ZERO };
+						if !same_frame(*f, want) {
+							bad = Some((i, j, *f, want));
+							break 'pieces;
+						}
+					}
+				}
+				if let Some((i, j, f, w)) = bad {
+					ctx.fail(
+						format!("stream: frames of a sliced stream differ from the same frames of the loaded file :: slice start {}", if a == 0 { "0" } else if a < 1152 { "inside the first packet" } else { "in a later packet" }),
+						format!("piece {} frame {} (file frame {}): got ({},{}) want ({},{}); {}", i, j, a + expect[i].0 + j, f.left, f.right, w.left, w.right, detail),
+					);
+				} else {
+					ctx.nontrivial_extra += 1;
+				}
+				ctx.outcome(frames_hash(&obs.out.concat()));
+			}
+		}
+	}
+}
+
 // ---------------------------------------------------------------------------------------------
 // C: shipped assets (differential)
 
@@ -1101,6 +1181,7 @@ enum Case {
 	Corrupt(usize, usize),
 	/// a generated wav longer than two decoder rings, streamed from start to end in pieces
 	LongStream(Fmt, u16),
+	Sliced(Fmt, u16),
 	/// seeks on a looping stream (targets before, inside, at the end of and beyond the loop region)
 	LoopSeek(Fmt, u16),
 	/// seek_by while the decoder is a number of frames ahead of what is heard
@@ -1124,6 +1205,8 @@ fn cases(tier: Tier) -> Vec<Case> {
 	v.extend(ASSETS.iter().map(|a| Case::Asset(a)));
 	v.push(Case::LongStream(Fmt::S16, 2));
 	v.push(Case::LongStream(Fmt::F32, 1));
+	v.push(Case::Sliced(Fmt::S16, 2));
+	v.push(Case::Sliced(Fmt::F32, 1));
 	v.push(Case::LoopSeek(Fmt::S16, 2));
 	v.push(Case::LoopSeek(Fmt::U8, 1));
 	v.push(Case::SeekBy(Fmt::S16, 1));
@@ -1156,6 +1239,7 @@ impl Check for C18 {
 			Case::Corrupt(i, off) => format!("byte {} of base file {} [{}] set to each of the 255 other values", off, i, bases(tier)[*i].desc()),
 			Case::SeekBy(f, ch) => format!("generated wav {:?} channels={} of 6000 frames at 8000 Hz: seek_by(d) for d in a lattice, issued after 100 frames were heard while the decoder is 0 / 64 / 1000 / 3000 frames ahead: after the buffered frames the stream continues at heard position + d", f, ch),
 			Case::LoopSeek(f, ch) => format!("generated wav {:?} channels={} of 3000 frames at 8000 Hz streamed with loop region 1500..2200: start x one seek over a lattice of targets (before / inside / at the end of / beyond the region), early (decoder has not reached the loop) and late", f, ch),
+			Case::Sliced(f, ch) => format!("generated wav {:?} channels={} of 4000 frames at 8000 Hz, streamed through StreamingSoundData::slice for 5 slices (start inside the first packet / on the packet border / in a later packet / 0) x 4 start positions x {{no seek, 3 seeks}} == the same frames of the loaded file", f, ch),
 			Case::LongStream(f, ch) => format!("generated wav {:?} channels={} of 40000 frames at 8000 Hz streamed from start to end in pieces of 1000 frames (crosses the 16384-frame decoder ring twice) == loaded", f, ch),
 		}
 	}
@@ -1167,6 +1251,7 @@ impl Check for C18 {
 			Case::Trunc(i, _) => format!("truncations of base file {} [{}]", i, bases(tier)[*i].desc()),
 			Case::Corrupt(i, off) => format!("corruption of byte {} of base file {} [{}]", off, i, bases(tier)[*i].desc()),
 			Case::LongStream(f, ch) => format!("long stream {:?} channels={}", f, ch),
+			Case::Sliced(f, ch) => format!("sliced stream {:?} channels={}", f, ch),
 			Case::LoopSeek(f, ch) => format!("looping stream seeks {:?} channels={}", f, ch),
 			Case::SeekBy(f, ch) => format!("seek_by with read-ahead {:?} channels={}", f, ch),
 		}
@@ -1179,6 +1264,7 @@ impl Check for C18 {
 			Case::Trunc(i, part) => truncation_case(&base(bases(tier)[*i]), *part, ctx),
 			Case::Corrupt(i, off) => corruption_case(&base(bases(tier)[*i]), *off, ctx),
 			Case::LongStream(f, ch) => long_stream_case(*f, *ch, ctx),
+			Case::Sliced(f, ch) => slice_case(*f, *ch, ctx),
 			Case::LoopSeek(f, ch) => loop_seek_case(*f, *ch, ctx),
 			Case::SeekBy(f, ch) => seek_by_case(*f, *ch, ctx),
 		});
